@@ -25,6 +25,7 @@ FAMILIES = ["seq-int", "zero-padded", "uuid-scattered", "uuid-sequential", "emai
 SALTS = [None, "", "s", "exp_2024_checkout_button_colour_v3", "é-salt", "A", "B", "salt1", "salt2", "x" * 64,
          "https://exp.example/checkout/v1", "https://exp.example/checkout/v2", "a /* b */ c1", "a /* b */ c2", "{uid}", "%s"]
 REGIONS = ["EU-W", "EU-E", "US-W", "US-E", "APAC"]
+EXCLUDED_REGIONS = ["EU-W", "EU-E"]
 
 
 def _units(family, offset, n):
@@ -76,7 +77,7 @@ def cases(draw, n):
         s1, s2 = draw(st.lists(st.sampled_from(SALTS), min_size=2, max_size=2, unique=True))
     if {s1, s2} == {None, ""}:
         s2 = "other"
-    case = {"cond": draw(st.sampled_from([0, 0, 1, 2, 3])), "second": draw(st.sampled_from(["fresh", "recompile", "recompile"])), "family": fam, "offset": draw(st.sampled_from([0, 1, 1000, 10 ** 6, 10 ** 9, 123456789, 2 ** 31, 10 ** 12, 2 ** 53 - 7, 2 ** 60,
+    case = {"cond": draw(st.sampled_from([0, 0, 1, 2, 3, 4])), "second": draw(st.sampled_from(["fresh", "recompile", "recompile"])), "family": fam, "offset": draw(st.sampled_from([0, 1, 1000, 10 ** 6, 10 ** 9, 123456789, 2 ** 31, 10 ** 12, 2 ** 53 - 7, 2 ** 60,
                                                            2 ** 63 - 200000, 1541815603606036480, 10 ** 24])), "weights": ws,
             "salts": [s1, s2], "n": n}
     if len(ws) >= 3 and draw(st.integers(0, 3)) == 0:
@@ -103,6 +104,20 @@ def _text(case, salt, ws):
         g1 = M.and_(M.or_(M.cmp_(I("uid"), "!=", S("qa-1")), M.cmp_(I("uid"), "==", S("qa-3")), 1), M.cmp_(I("uid"), "==", S("qa-2")))
         g2 = M.not_(M.or_(M.cmp_(I("uid"), "==", S("qa-1")), M.cmp_(I("uid"), "!=", S("qa-1")), 1))
         body = M.if_([(g1, M.ret([(S("qa"), "1")])), (g2, M.ret([(S("qa2"), "1")]))], inner)
+    if case.get("cond") == 4:
+        # every unit comes without a score (NaN): `not score < 50` is true for all of them, so they get THIS statement's weights;
+        # the else branch holds the mirrored weights
+        I = M.ident
+        inner = body["else"]
+        mirrored = M.ret([(g["lit"], w) for g, w in zip(inner["groups"], [g["w"] for g in inner["groups"]][::-1])])
+        body = M.if_([(M.not_(M.cmp_(I("score"), "<", M.lit_int("50"))), inner)], mirrored)
+    if case.get("cond") == 5:
+        # a guard-only nested `if` followed by an else: units that pass the outer test but not the inner one are excluded by
+        # the text (unroutable) - they must not be served by the else branch
+        I, S = M.ident, M.lit_str
+        inner = body["else"]
+        body = M.if_([(M.cmp_(I("region"), "in", M.tup([S(r) for r in EXCLUDED_REGIONS])),
+                       M.if_([(M.cmp_(I("uid"), "<", M.lit_int("0")), M.ret([(S("qa"), "1")]))], None))], inner)
     q = "'" if salt is not None and '"' in salt else '"'
     return M.render(M.program("pop", body, salt=salt, splitters=sp, salt_q=q))
 
@@ -122,6 +137,17 @@ def _evaluate(case, ev):
     cache = {}
     out = []
     for u in _units(fam, case["offset"], case["n"]):
+        if case.get("cond") == 4:
+            u = dict(u, score=float("nan"))
+        if case.get("cond") == 5 and u["region"] in EXCLUDED_REGIONS:
+            try:
+                v = ev(**u)
+            except sut.unroutable_error():
+                out.append(None)  # excluded, as written
+                continue
+            except Exception as e:
+                return None, "evaluation failed for %r: %s %s" % (u, type(e).__name__, e)
+            return None, "unit %r is excluded by the targeting rule (outer test true, inner test false, no else) but was served %r" % (u, v)
         try:
             v = ev(**u)
             k = (type(v), v)
@@ -181,8 +207,12 @@ def judge(case):
             return {"viol": [err + " | " + texts[si]], "tags": tags}
         vecs.append(a)
         obs = [0] * len(ws)
-        for i in a:
+        served = [i for i in a if i is not None]  # (cond 5: units the targeting rule excludes are not served)
+        for i in served:
             obs[i] += 1
+        if len(served) != n:
+            exp = [e * len(served) / n for e in exp]
+            n = len(served)
         for j, w in enumerate(ws):
             if exp[j] == 0 and obs[j]:
                 viol.append("zero-weight group %d received %d units" % (j, obs[j]))
@@ -194,7 +224,8 @@ def judge(case):
         k = len(ws)
         table = [[0] * k for _ in range(k)]
         for a, b in zip(*vecs):
-            table[a][b] += 1
+            if a is not None and b is not None:
+                table[a][b] += 1
         stat, df, p = stats.chi2_contingency(table)
         if p < 1e-9:
             viol.append("assignments under salts %r and %r are not independent: chi2=%.1f df=%d p=%.3g | family=%s offset=%d weights=%r N=%d"
@@ -232,7 +263,7 @@ def fixed_cases(n):
                "salts": [s2, s1], "n": n}
     yield {"second": "fresh", "family": "seq-int", "offset": 0, "weights": ["2", "1", "1", "2"], "salts": ["A", "B"], "n": n,
            "labels": [M.enc(x) for x in ["control", "treatment", "holdout", "treatment"]]}
-    for fam, c in (("seq-int", 1), ("email", 1), ("two-field", 2), ("two-field", 1), ("uuid-sequential", 1), ("zero-padded", 3), ("two-field", 3)):
+    for fam, c in (("seq-int", 1), ("email", 1), ("two-field", 2), ("two-field", 1), ("uuid-sequential", 1), ("zero-padded", 3), ("two-field", 3), ("seq-int", 4), ("email", 4), ("two-field", 5)):
         yield {"cond": c, "second": "fresh", "family": fam, "offset": 5, "weights": ["1", "3"], "salts": ["A", "B"], "n": n}
     yield {"second": "fresh", "family": "email", "offset": 7, "weights": ["1", "2", "1"], "salts": ["A", "B"], "n": n,
            "labels": [M.enc(x) for x in ["B", "B'", '"B']]}
